@@ -706,9 +706,10 @@ primaryexpr(struct scope *s)
 				error(&tok.loc, "invalid floating constant '%s'", tok.lit);
 			if (!end[0])
 				e->type = &typedouble;
-			else if (tolower(end[0]) == 'f' && !end[1])
+			else if (tolower(end[0]) == 'f' && !end[1]) {
 				e->type = &typefloat;
-			else if (tolower(end[0]) == 'l' && !end[1])
+				e->u.constant.f = strtof(tok.lit, NULL);
+			} else if (tolower(end[0]) == 'l' && !end[1])
 				e->type = &typeldouble;
 			else
 				error(&tok.loc, "invalid floating constant suffix '%s'", end);
